@@ -211,6 +211,8 @@ func (P *Program) LoadContracts() error {
 	files := []struct{ path, pkg string }{
 		{filepath.Join(P.RepoDir, "engine", "verif_contracts.go"), "engine"},
 		{filepath.Join(P.RepoDir, "verif_contracts.go"), "prolog"},
+		// thin safety-only contracts of the no-panic sweep (generated list, see DESIGN.md 5 C05)
+		{filepath.Join(P.RepoDir, "engine", "verif_sweep.go"), "engine"},
 	}
 	for _, f := range files {
 		if _, err := os.Stat(f.path); err != nil {
